@@ -328,6 +328,7 @@ func runCheck(repo, prop, tier string) int {
 		}
 		if len(retry) > 0 {
 			r2 := NewRunner(timeout*3, false)
+			r2.reseed = true
 			if os.Getenv("VERIF_KEEP") != "" {
 				r2.keep = true
 				fmt.Println("DEBUG retry queries in", r2.workdir)
